@@ -140,6 +140,8 @@ def decode_saf(data):
     if not text.endswith("\n"):
         raise ValueError("no final newline")
     lines = text[:-1].split("\n")
+    while lines and lines[-1] == "":
+        lines.pop()                                  # trailing blank lines are harmless
     if not lines[0].startswith("SESAME ASCII data format (saf) v. 1"):
         raise ValueError("not saf")
     hdr = {}
@@ -196,6 +198,8 @@ def decode_minishark(data):
     if not text.endswith("\n"):
         raise ValueError("no final newline")
     lines = text[:-1].split("\n")
+    while lines and lines[-1] == "":
+        lines.pop()
     hdr, i = {}, 0
     while i < len(lines) and lines[i].startswith("#"):
         m = re.fullmatch(r"#([^\t]+):\t(.*)", lines[i])
@@ -254,6 +258,8 @@ def decode_peer_file(data):
     if not text.endswith("\n"):
         raise ValueError("no final newline")
     lines = text[:-1].split("\n")
+    while lines and lines[-1] == "":
+        lines.pop()
     if len(lines) < 4:
         raise ValueError("short")
     m = re.fullmatch(r".*, ([A-Za-z0-9]+)", lines[1])
@@ -325,3 +331,58 @@ def assemble_binary(traces):
     if len(n) != 1 or max(dts) - min(dts) > 1e-8:
         return None
     return {"ns": by["N"][0], "ew": by["E"][0], "vt": by["Z"][0], "dt": by["N"][1], "deg": 0.0}
+
+
+# ------------------------------------------------ tolerant scans (damaged text files) ----
+def scan_rows(fmt, data):
+    """Tolerant scan of a (possibly damaged) SAF or MiniShark file: the header count, the channel
+    mapping and every WELL-FORMED data row in file order.  Returns None when the header itself
+    cannot be understood.  dict(n=header count, rows=int array [k,3] in (vt, ns, ew) order,
+    tail_row=(vt,ns,ew) or None when the text after the last newline is itself a complete row,
+    junk=number of non-empty data lines that are not well formed)."""
+    try:
+        text = data.decode("utf-8")
+    except UnicodeDecodeError:
+        return None
+    text = text.replace("\r\n", "\n").replace("\r", "\n")      # universal newlines, as the readers see them
+    if fmt == "saf":
+        m = re.search(r"NDAT = (\d+)\n", text)
+        ids = {k: re.search(r"CH(\d)_ID = %s" % k, text) for k in "VNE"}
+        sep = text.find("####")
+        if not m or not all(ids.values()) or sep < 0:
+            return None
+        cols = [int(ids[k].group(1)) for k in "VNE"]
+        if sorted(cols) != [0, 1, 2]:
+            return None
+        body = text[text.find("\n", sep) + 1:] if text.find("\n", sep) >= 0 else ""
+        pat = re.compile(r"(-?\d+)[ \t](-?\d+)[ \t](-?\d+)")
+    elif fmt == "minishark":
+        m = re.search(r"#Sample number:\t(\d+)\n", text)
+        if not m:
+            return None
+        cols = [0, 1, 2]
+        lines = text.split("\n")
+        k = 0
+        while k < len(lines) and lines[k].startswith("#"):
+            k += 1
+        body = "\n".join(lines[k:])
+        pat = re.compile(r"(-?\d+)\t(-?\d+)\t(-?\d+)")
+    else:
+        return None
+    complete, _, tail = body.rpartition("\n") if "\n" in body else ("", "", body)
+    rows, junk = [], 0
+    for line in (complete.split("\n") if complete or "\n" in body else []):
+        mm = pat.fullmatch(line)
+        if mm:
+            v = [int(x) for x in mm.groups()]
+            rows.append([v[cols[0]], v[cols[1]], v[cols[2]]])
+        elif line.strip():
+            junk += 1
+    tail_row = None
+    mm = pat.fullmatch(tail)
+    if mm:
+        v = [int(x) for x in mm.groups()]
+        tail_row = [v[cols[0]], v[cols[1]], v[cols[2]]]
+    elif tail.strip():
+        junk += 1
+    return {"n": int(m.group(1)), "rows": np.array(rows, dtype=np.int64).reshape(-1, 3), "tail_row": tail_row, "junk": junk}
